@@ -121,31 +121,15 @@ func specShape(keys []rkey) string {
 	return strings.Join(ss, "+")
 }
 
-// classShape is the still coarser form used in violation classes: which kinds of key the
-// specification combines (one root cause should not fan out over every field type and arity).
+// classShape is the still coarser form used in violation classes: the kind of the primary sort
+// key (one root cause should not fan out over every field type and key combination; the full
+// specification is in the detail and the replay).
 func classShape(keys []rkey) string {
-	var sc, fd, id bool
-	for _, k := range keys {
-		switch k.by {
-		case "score":
-			sc = true
-		case "id":
-			id = true
-		default:
-			fd = true
-		}
+	switch keys[0].by {
+	case "score", "id":
+		return keys[0].by
 	}
-	var ss []string
-	if sc {
-		ss = append(ss, "score")
-	}
-	if fd {
-		ss = append(ss, "field")
-	}
-	if id {
-		ss = append(ss, "id")
-	}
-	return strings.Join(ss, "+")
+	return "field"
 }
 
 func specHasID(keys []rkey) bool {
@@ -1590,7 +1574,11 @@ func Run(r *mc.Run) {
 	for _, f := range families(r, 1000) {
 		nspecA += len(f.specs)
 	}
-	r.Rule("E2, two enumerations, each run with collector.PreAllocSizeSkipCap = 1000 and = 3. (a) collector level: the real TopNCollector over a stub searcher + stub doc-value reader, fed every stream of the length bound over the alphabets {score 1,2}×{key a, b, missing} (all three fields k/n/d tied), {k}×{n} independent, {score}×{a, b, missing, multi-valued {c,a}} and all binary score/key streams of length 12 (thorough: 12..14), ids assigned to arrival positions by every permutation (short streams) or 3 fixed permutations; × sort specifications (score, _id, string/number/date field asc/desc × missing first/last × default/min/max mode × typed/auto, two- and three-key) × Size {0,1,2,3,5,11} × From {0,1,2,10}; under specifications ending in _id additionally NewTopNCollectorAfter from every hit with the keys the collector reported (DecodedSort / exact score). (b) index level: every sequence of ≤3 (thorough ≤4) document profiles out of 6 plus fixed corpora of 6–14 documents (repeated profiles: equal keys and scores), one document per batch, on in-memory scorch and upsidedown, queries {match_all, term}, sort specifications as above, every From/Size page in (0..N+1)² plus heap-store pages, SearchAfter and SearchBefore from every hit under total orders. Oracle: stable sort of the matches in natural index order by the documented comparison; hits must be exactly positions [From, From+Size), Total the number of matches, MaxScore their maximum; After/Before pages the following/preceding Size elements. An outcome is (level, engine, sort shape, number of matches, number of tied neighbours, after/before exercised).")
+	r.Rule("E2, two enumerations, each run with collector.PreAllocSizeSkipCap = 1000 and then = 3. " +
+		"(a) collector level: the real TopNCollector over a stub searcher + stub doc-value reader, fed every stream up to the length bound (quick 4 / thorough 5 for the first alphabet, 3 / 4 for the others) over the alphabets {score 1,2}×{key a, b, missing} (the fields k/n/d tied), {k}×{n} independent, {score}×{a, b, missing, multi-valued {c,a}}, and all binary score/key streams of length 12 (thorough 12 and 13); ids are assigned to arrival positions by every permutation (streams ≤ 3, thorough ≤ 4) or by 3 fixed permutations; × the sort specifications (score, _id, string/number/date field asc/desc × missing first/last × default/min/max mode × typed/auto, two- and three-key) × Size {0,1,2,3,5,11} × From {0,1,2,10}; under specifications ending in _id additionally NewTopNCollectorAfter from every hit with the keys the collector itself reported (DecodedSort / exact score). " +
+		"(b) index level: every sequence of ≤ 3 (thorough ≤ 4) document profiles out of 6 plus fixed corpora of 6–14 documents (repeated profiles: whole keys and scores tie), one document per batch, on in-memory scorch and upsidedown, queries {match_all, term}, the sort specifications, every From/Size page of (0..N+1)² plus heap-store pages, SearchAfter and SearchBefore from every hit under total orders. " +
+		"The cap=3 repetition is one length step shorter, restricted to the first alphabet and the long streams, and to pages with Size+From > 3; the quick tier rotates the specifications over the longest streams / the three-document corpora. " +
+		"Oracle: stable sort of the matches, taken in natural index order, by the documented comparison; hits must be exactly positions [From, From+Size), Total the number of matches, MaxScore their maximum; After/Before pages the following/preceding Size elements. An outcome is (level, engine, sort shape, number of matches, number of tied neighbours, after/before exercised).")
 	r.Assume(
 		"natural index order: arrival order of the stub searcher at collector level; insertion order for in-memory scorch with one document per batch (no merges); ascending id for upsidedown — stated exactly, so tie groups are compared as sequences",
 		"scores are an input of the property: at index level the score of each match is read once from a listing sorted by _id and used by the oracle",
